@@ -34,9 +34,10 @@ PosOf(file, i) == IF i = 1 THEN 0 ELSE PosOf(file, i - 1) + SizeOf(file[i - 1])
 FragBoxes(seg, nr, withEmsg) == (IF withEmsg THEN <<[k |-> "emsg", seg |-> seg, frag |-> nr]>> ELSE <<>>)
                                 \o <<[k |-> "moof", seg |-> seg, frag |-> nr], [k |-> "mdat", seg |-> seg, frag |-> nr]>>
 HasStyp(d) == d \in {"styp", "styp+sidx"}
-HasTopSidx(d) == d \in {"sidx", "styp+sidx", "sidx+free"}
+HasTopSidx(d) == d \in {"sidx", "styp+sidx", "sidx+free", "2sidx"}
 \* "sidx+free": a free box between the top-level sidx and the first fragment - the index then has first_offset = size of that box (8.16.3)
-FirstOffset(p) == IF p.delim = "sidx+free" THEN 8 ELSE 0
+\* "2sidx": two top-level sidx boxes (one per track of a multiplexed on-demand file): the first one's first_offset is the size of the second
+FirstOffset(p) == IF p.delim = "sidx+free" THEN 8 ELSE IF p.delim = "2sidx" THEN 44 + 12 * Len(p.fps) ELSE 0
 HasMfra(d) == d \in {"mfra", "mfra-noflag"}
 \* fps = frags per segment (sequence); first fragment number of segment s
 FirstFragNr(fps, s) == 1 + SumSeq(SubSeq(fps, 1, s - 1))
@@ -49,6 +50,7 @@ MediaBoxes(p) == Flat([s \in 1 .. Len(p.fps) |-> SegBoxes(p, s)])
 FileOf(p) == <<[k |-> "ftyp"], [k |-> "moov", ntracks |-> p.ntracks]>>
              \o (IF HasTopSidx(p.delim) THEN <<[k |-> "sidx", seg |-> 0, nref |-> Len(p.fps), level |-> "file"]>> ELSE <<>>)
              \o (IF p.delim = "sidx+free" THEN <<[k |-> "free", seg |-> 0]>> ELSE <<>>)
+             \o (IF p.delim = "2sidx" THEN <<[k |-> "sidx", seg |-> 0, nref |-> Len(p.fps), level |-> "file2"]>> ELSE <<>>)
              \o MediaBoxes(p)
              \o (IF HasMfra(p.delim) THEN <<[k |-> "mfra", ntfra |-> p.ntracks]>> ELSE <<>>)
 
